@@ -17,7 +17,7 @@ META = {
         "per-adapter rules, so the structural rules of C09 (Head/Tail/Skip), C10 (Filter/FilterMap) and C11 (Sort*) are evaluated here as well."),
     "trusted_base": ["imbl::Vector", "rustc MIR construction"],
     "assumptions": [],
-    "not_decided": "diffs still parked in an already-polled adapter's ready buffer when it is handed on; exact arithmetic of the stages (C09)",
+    "not_decided": "diffs still parked in an already-polled adapter's ready buffer when it is handed on; item identity inside a stage beyond lengths / indices / refill positions (C09)",
 }
 META["technique"] = "static analysis: dominance / provenance / typestate rules over rustc MIR facts (rustc_private driver) + path-partitioned abstract interpretation in a linear-inequality domain (view-length balance; Fourier-Motzkin emptiness, no execution, no external solver)"
 META["explanation"] += ' R12.3 the view handed to the next stage is in source order (no odd number of rev() in the chain it is collected from).'
